@@ -53,7 +53,7 @@ def run(ck: Check):
     naija = ck.build_cli()
     ck.gen_tables()
     ck.lean_obligations([MOD])
-    ck.build_driver()
+    ck.build_driver(["Cli"])
     quick = ck.tier == "quick"
     corp = corpus_lines()
     if corp:
@@ -63,7 +63,7 @@ def run(ck: Check):
         stream(ck, naija, 300, 100, 600)
     else:
         stream(ck, naija, 400, 300, 5000)
-        for shift in range(1, 5):
+        for shift in range(1, 9):
             stream(ck, naija, 300, 150, 3000, seed_shift=1000 * shift, label=f"cli-seed+{1000 * shift}", extra=["--no-files"])
         ck.leanchecker([MOD])
     if ck.is_broken():
